@@ -165,6 +165,12 @@ pub fn vx_at<'a, T>(m: &'a [T], i: usize) -> (t: &'a T)
     requires i < m.len(),
     ensures *t == m@[i as int],
 { &m[i] }
+/// `o.map(|s| s.to_string())` on an `Option<&str>` (verified)
+pub fn vx_opt_to_string(o: Option<&str>) -> (r: Option<String>)
+    ensures match o { Some(s) => r matches Some(t) && t@ == s@, None => r is None },
+{
+    match o { Some(s) => Some(s.to_string()), None => None }
+}
 // ASSUMED (std): `String::clone` copies the text
 #[verifier::external_body]
 pub fn vx_str_clone(a: &String) -> (r: String) ensures r@ == a@ { unimplemented!() }
@@ -190,12 +196,9 @@ pub fn vx_did_parse(s: &str) -> (r: Result<DeltaId, VxError>)
 { unimplemented!() }
 /// what `Revision::from` (regexes FULL_REV / FIRST_REV) reads from a text; None = rejected.  Uninterpreted.
 pub uninterp spec fn rev_parse(s: Seq<char>) -> Option<RevV>;
-/// `Revision::from` PANICS on this text: the digit group does not fit a u32 (`parse::<u32>().unwrap()`).  Uninterpreted.
-pub uninterp spec fn rev_parse_panics(s: Seq<char>) -> bool;
-// ASSUMED (regex): `Revision::from` is a function of the text; it is only called on texts on which it does not panic
+// ASSUMED (regex): `Revision::from` is a function of the text and does not panic (on this tree the index is parsed with `?`)
 #[verifier::external_body]
 pub fn vx_rev_parse(s: &str) -> (r: Result<Revision, VxError>)
-    requires !rev_parse_panics(s@),
     ensures match r { Ok(x) => rev_parse(s@) == Some(x@), Err(_) => rev_parse(s@) is None },
 { unimplemented!() }
 
@@ -220,11 +223,11 @@ pub proof fn assume_did_print_parse(v: DidV)
     ensures did_parse(did_str(v)) == Some(v),
 { }
 // ASSUMED, EXPLICITLY (print/parse are inverse on system-produced identifiers): FULL_REV / FIRST_REV read the text of a
-// well-formed revision with token digest/tail back as that revision, without panicking.  Checked by the stand-in `revision`.
+// well-formed revision with token digest/tail back as that revision.  Checked by the stand-in `revision`.
 #[verifier::external_body]
 pub proof fn assume_rev_print_parse(v: RevV)
     requires rev_sys(v),
-    ensures rev_parse(rev_str(v)) == Some(v), !rev_parse_panics(rev_str(v)),
+    ensures rev_parse(rev_str(v)) == Some(v),
 { }
 
 // ================================================================ spec of the property statement: a block as a JSON object
@@ -377,20 +380,18 @@ pub open spec fn loaded(b: DidV, raw: Map<Seq<char>, JV>, d: Delta) -> bool {
     &&& (d.changes matches Some(cs) ==> cs@.len() > 0)
     &&& d.status is Pending
 }
-/// what `load_raw_delta` REQUIRES of the object (violations make the real code panic / overflow — see the unit's report):
-/// every "k" entry is a string (`p.as_str().unwrap()`), parsed parent indices and previous-revision indices are below u32::MAX
-/// (`+ 1` on a u32), the previous-revision text of an update record does not overflow `Revision::from`'s `parse::<u32>().unwrap()`
+/// what `load_raw_delta` REQUIRES of the object (a violation makes the real code overflow a u32 `+ 1` — finding F3):
+/// parsed parent indices and the indices of parsed previous revisions are below u32::MAX
 pub open spec fn rec_bounded(e: JV) -> bool {
     match e {
         JV::Arr(r) => r.len() == 3 ==> match r[1] {
-            JV::Str(s) => !rev_parse_panics(s) && match rev_parse(s) { Some(p) => p.0 < u32::MAX, None => true },
+            JV::Str(s) => match rev_parse(s) { Some(p) => p.0 < u32::MAX, None => true },
             _ => true,
         },
         _ => true,
     }
 }
 pub open spec fn inputs_bounded(raw: Map<Seq<char>, JV>) -> bool {
-    &&& (arr_of(raw, PACK_FIELD@) matches Some(a) ==> forall|i: int| 0 <= i < a.len() ==> (#[trigger] a[i]) is Str)
     &&& forall|v: DidV| #[trigger] p_has(raw, v) ==> v.0 < u32::MAX
     &&& (arr_of(raw, CHANGESETS_FIELD@) matches Some(a) ==> forall|i: int| 0 <= i < a.len() ==> rec_bounded(#[trigger] a[i]))
 }
@@ -405,7 +406,8 @@ pub open spec fn loadable(raw: Map<Seq<char>, JV>, b: DidV) -> bool {
     &&& (raw.contains_key(PARENTS_FIELD@) ==> raw[PARENTS_FIELD@] is Arr
             && forall|i: int| 0 <= i < raw[PARENTS_FIELD@]->Arr_0.len() ==> p_entry(#[trigger] raw[PARENTS_FIELD@]->Arr_0[i]) is Some)
     &&& idx_ok(raw, b)
-    &&& (raw.contains_key(PACK_FIELD@) ==> raw[PACK_FIELD@] is Arr)
+    &&& (raw.contains_key(PACK_FIELD@) ==> raw[PACK_FIELD@] is Arr
+            && forall|i: int| 0 <= i < raw[PACK_FIELD@]->Arr_0.len() ==> (#[trigger] raw[PACK_FIELD@]->Arr_0[i]) is Str)
     &&& (arr_of(raw, CHANGESETS_FIELD@) matches Some(a) ==> forall|i: int| 0 <= i < a.len() ==> rec_ok(#[trigger] a[i]))
 }
 
